@@ -44,6 +44,8 @@ class RecCore:
         RecCore.instances.append(self)
         self.events = []
         self.var_importance = _Imp(self)
+        for k in DESCR + ['press', 'rho0']:          # AurelCore pre-registers every documented key with importance 1.0
+            dict.__setitem__(self.var_importance, k, 1.0)
         self.data = _Data(self)
 
     def freeze_data(self):
@@ -131,7 +133,8 @@ def timestep_freeze_obligations(R):
     shapes = []
     for nin in (1, 2, 3):
         for vars_ in ([DESCR[0]], [DESCR[0], DESCR[1]], [{'c1': custom('c1', 2)}], [{'c1': custom('c1', 3), 'c2': custom('c2', 1)}],
-                      [DESCR[0], {'c1': custom('c1', 2)}, DESCR[2]], [{'c1': custom('c1', 1)}, {'c2': custom('c2', 2)}, DESCR[1]]):
+                      [DESCR[0], {'c1': custom('c1', 2)}, DESCR[2]], [{'c1': custom('c1', 1)}, {'c2': custom('c2', 2)}, DESCR[1]],
+                      [{'press': custom('press', 1)}, DESCR[3]], [DESCR[0], {'rho0': custom('rho0', 2), 'c1': custom('c1', 1)}]):
             shapes.append((nin, vars_))
     for nin, vars_ in shapes:
         n += 1
@@ -166,10 +169,12 @@ def timestep_freeze_obligations(R):
             nxt = ev[idx[0] + 1] if idx[0] + 1 < len(ev) else None
             if not (nxt and nxt[0] == 'importance' and nxt[1] == cn and nxt[2] == 0):
                 bad.append(f'custom variable {cn}: not frozen immediately after being stored (next event {nxt})')
+            if dict.get(RecCore.instances[0].var_importance, cn, 1.0) != 0:
+                bad.append(f'custom variable {cn}: importance {dict.get(RecCore.instances[0].var_importance, cn, 1.0)} at the end of the step (can be evicted and silently recomputed from defaults)')
         # requests inside custom functions happen after the freeze (inputs can no longer be evicted)
         if any(e[0] == 'request' for e in ev[:fz]):
             bad.append('request before freeze')
-    R.bounded.append(dict(function='aurel.time.process_single_timestep', bound=f'{n} shapes: 1-3 input arrays x 6 vars lists (names, custom dicts, mixed); contents opaque'))
+    R.bounded.append(dict(function='aurel.time.process_single_timestep', bound=f'{n} shapes: 1-3 input arrays x 8 vars lists (names, custom dicts, mixed, custom variables overriding a documented key); contents opaque'))
     R.ob('time.process_single_timestep:inputs-stored-and-frozen-before-any-request; custom variables frozen when stored',
          'process_single_timestep', 'refuted' if bad else 'bounded-ok', 'trace-contract', time.time() - t0, '; '.join(bad[:4]), bad[:6] or None,
          bounded=f'{n} shapes of (inputs, vars); all contents', replay=native_freeze_replay)
